@@ -19,7 +19,7 @@ def run(ctx, res):
     rows, bad = common.element_rows(ctx, res, "C03.R1-3", lambda r: True,
                                     "collection table (recursion / ready children / ready push)")
     res.extra["table_rows"] = rows
-    res.floor("C03.R1-3", "canonical rows of the element table", rows, 10)
+    res.floor("C03.R1-3", "rows of the element table (2^7)", rows, 128)
     common.strategy_selection(ctx, res, "C03.R4")
     common.registry_wiring(ctx, res, "C03.R5")
     common.marker_extents(ctx, res, "C03.R6", parts=("range", "unwrap"))
